@@ -156,8 +156,9 @@ NewPart(S, value, isBatch, lvs) ==
 
 (* the source's generator: a single part, or a batch of bsrc new parts (leaves first, then the batch) *)
 Generate(S, s) ==
-    LET b == cfg.devs[s].bsrc IN
-    IF b < 0 THEN NewPart(S, cfg.devs[s].pval, FALSE, <<>>)
+    LET b == cfg.devs[s].bsrc
+        k == S.dev[s].supplied + 1 IN       \* this is the k-th generation (every earlier one was supplied)
+    IF b < 0 \/ (cfg.devs[s].bmix /\ k % 2 = 0) THEN NewPart(S, cfg.devs[s].pval, FALSE, <<>>)
     ELSE LET RECURSIVE mk(_, _)
              mk(T, i) == IF i > b THEN T ELSE mk(NewPart(T, cfg.devs[s].pval, FALSE, <<>>), i + 1)
              T1 == mk(S, 1)
@@ -263,9 +264,11 @@ ScheduleFinish(S, d, ct) ==
         S1 == [S EXCEPT !.dev[d].off = 0] IN
     IF t <= 0 THEN FinishCycle(S1, d) ELSE Sched(S1, S.now + t, d, "finish")
 
-(* _finish_cycle of each kind *)
+(* _finish_cycle of each kind (the code asserts that a part is in process: a finish event without *)
+(* one cannot occur in the specification and is a no-op here so that the operator stays total)  *)
 FinishCycle(S, d) ==
-    CASE Kind(d) = "source" ->
+    CASE Kind(d) # "source" /\ S.dev[d].inp = 0 -> S
+      [] Kind(d) = "source" ->
             LET S1 == IF S.dev[d].out = 0
                       THEN LET G == Generate(S, d)
                                p == Len(G.part) IN
